@@ -415,6 +415,11 @@ def run(f, fixture, rep, cfg, tier):
     rep.check(seq == [("metadata", "self.metadata"), ("bytes", "self.content")], "R1", "Package|write-sequence", "package = metadata, content", "Package::write emits %s" % seq, pw.span)
     pp = f.one("package::Package::parse")
     rte = [c for c in pp.calls() if c.decl == "std::io::Read::read_to_end"]
+    agp = agg_fields(pp, "package::Package", TermBuilder(pp))
+    a1 = pp.local_name(1) or "_1"
+    okp = agp is not None and agp[0].get("metadata") == "rpm::package::PackageMetadata::parse(%s)<Ok>.0" % a1 and agp[0].get("content") == "buf[write:std::io::Read::read_to_end(%s)]" % a1
+    rep.check(okp, "R2", "Package|fields", "Package{metadata: parsed from the input, content: every remaining byte of the input}",
+              "Package::parse stores %s: the payload kept is not simply the unbounded rest of the input" % ({k: v[:120] for k, v in agp[0].items()} if agp else None), pp.span)
     rep.check(len(rte) == 1, "R1", "Package|parse-rest", "the payload is everything after the metadata (read_to_end)", "Package::parse no longer reads the rest with read_to_end", pp.span)
 
     # ---- R3 ---------------------------------------------------------------------------------------
